@@ -95,6 +95,19 @@ var scenarios = map[string]func(){
 		ctx.Done().Recv()
 		x = 2
 	},
+	// threads spawned by different threads: the scheduler's own bookkeeping must stay invisible to the detector
+	"ok-nested-spawn": func() {
+		d := mcrt.Make[int](0, "d")
+		for i := 0; i < 3; i++ {
+			mcrt.Go("outer", func() {
+				mcrt.Go("inner-a", func() { d.Send(1) })
+				mcrt.Go("inner-b", func() { d.Send(1) })
+			})
+		}
+		for i := 0; i < 6; i++ {
+			d.Recv()
+		}
+	},
 	"ok-go": func() {
 		x = 1
 		d := mcrt.Make[int](0, "d")
